@@ -355,7 +355,10 @@ def r7(ctx, prog):
         return
     bv = next(iter(bvars))
     is_base_fld = lambda j: f.nodes[j]["k"] == "MemberExpr" and f.nodes[j]["fld"] == "base"
-    differs = lambda e, pol: isinstance(e, int) and rl.rel(f, e, pol, is_base_fld, rl.is_local(f, bv)) == "!="
+    # (the freed address: the release variable itself, or the parameter it starts out as a copy of)
+    srcs = {rl.var_of(f, dd["init"]) for _, dd in rl.local_decl(f, lambda dd: f.alias_root(dd["d"]) == bv) if dd.get("init") is not None} - {None}
+    is_addr = lambda j: any(rl.is_local(f, d)(j) for d in {bv} | srcs)
+    differs = lambda e, pol: isinstance(e, int) and rl.rel(f, e, pol, is_base_fld, is_addr) == "!="
     hit = [q for p_, q, e, pol in rl.edges_with_fact(f, differs)]
     setb = lambda e: f.nodes[e]["k"] == "BinaryOperator" and f.nodes[e]["op"] == "=" and rl.var_of(f, f.nodes[e]["c"][0]) == bv and f.mentions_field(f.nodes[e]["c"][1], "base")
     ok = bool(hit)
